@@ -7,6 +7,7 @@ import (
 	"path/filepath"
 	"sort"
 	"strings"
+	"sync"
 
 	"github.com/cloudspannerecosystem/memefish"
 	"github.com/cloudspannerecosystem/memefish/ast"
@@ -125,6 +126,8 @@ func (v *recVisitor) Index(i int) ast.Visitor {
 	return &recVisitor{v.log, fmt.Sprintf("%s[%d]", v.path, i)}
 }
 
+var c04ShapeSeen sync.Map
+
 func exprOperandType(n ast.Node) string {
 	// for "exprPrec: unexpected" name the operand types so different missing cases separate
 	var ts []string
@@ -154,6 +157,25 @@ func checkTotalMethods(res ParseResult) map[string]string {
 			}
 		}); pv != nil {
 			viol["C04/Preorder/"+panicClass(pv)] = fmt.Sprintf("Preorder panics: %v", pv)
+		}
+		// breaking out of a Preorder range loop at every node (once per distinct tree shape)
+		if vs := oracle.Preorder(root); len(vs) <= 24 {
+			if _, done := c04ShapeSeen.LoadOrStore(explore.Hash(shapeOf([]ast.Node{root})), true); !done {
+				for i := range vs {
+					if pv, _ := explore.Try(func() {
+						k := 0
+						for range ast.Preorder(root) {
+							if k == i {
+								break
+							}
+							k++
+						}
+					}); pv != nil {
+						viol["C04/Preorder-break/"+panicClass(pv)] = fmt.Sprintf("breaking out of `for range ast.Preorder(root)` at node %d of %d panics: %v", i, len(vs), pv)
+						break
+					}
+				}
+			}
 		}
 		for _, v := range oracle.Preorder(root) {
 			n := v.Node
